@@ -1,2 +1,5 @@
 import PncProofs.ArlLemmas
 import PncProofs.C20
+import PncProofs.InterpLemmas
+import PncProofs.SigmaLemmas
+import PncProofs.C17
